@@ -391,6 +391,52 @@ def small_scope_decls():
     return out, len(menu)
 
 
+def boundary_decls():
+    """systematic boundary cases of the bit-field placement (quick and thorough):
+    (a) ordinary member M followed by a bit-field `B b:w` with bits(M) + w = bits(B) - 1 / 0 / + 1,
+        alone, behind a leading char, and followed by a char;
+    (b) runs of 2 and 3 bit-fields of one declared size whose widths sum to bits(B) - 1 / 0 / + 1"""
+    SZ = {"char": 1, "uchar": 1, "short": 2, "ushort": 2, "int": 4, "uint": 4, "long": 8, "ulong": 8}
+    ords = [(("sc", "char"), 1), (("sc", "short"), 2), (("sc", "int"), 4), (("arr", 3, ("sc", "char")), 3),
+            (("arr", 5, ("sc", "char")), 5), (("arr", 3, ("sc", "short")), 6), (("arr", 7, ("sc", "char")), 7)]
+    out, seen = [], set()
+
+    def add(ms):
+        t = ("agg", False, ms)
+        k = G.to_str(t)
+        if k not in seen:
+            seen.add(k)
+            out.append(t)
+    ch = ("p", ("sc", "char"))
+    for bt in ("char", "ushort", "int", "uint", "long", "ulong"):
+        unit = 8 * SZ[bt]
+        for m, msz in ords:
+            for d in (-1, 0, 1):
+                w = unit - 8 * msz + d
+                if 1 <= w <= unit:
+                    bf = ("b", w, True, ("sc", bt))
+                    add([("p", m), bf])
+                    add([("p", m), bf, ch])
+                    if msz % 2 == 1 or m[0] == "arr":
+                        w2 = unit - 8 * (msz + 1) + d      # M is then at offset 1
+                        if 1 <= w2 <= unit and m[0] == "arr" and m[2][1] == "char" or (1 <= w2 <= unit and m == ("sc", "char")):
+                            add([ch, ("p", m), ("b", w2, True, ("sc", bt))])
+        for w1 in sorted({1, unit // 2, unit - 2, unit - 1} - {0}):
+            for d in (-1, 0, 1):
+                w2 = unit - w1 + d
+                if 1 <= w2 <= unit:
+                    run = [("b", w1, True, ("sc", bt)), ("b", w2, True, ("sc", bt))]
+                    add(run)
+                    add(run + [ch])
+                    add([ch] + run) if 8 + w1 <= unit else None
+                if w1 < unit - 2:
+                    wa = max(1, (unit - w1) // 2)
+                    wb = unit - w1 - wa + d
+                    if 1 <= wb <= unit:
+                        add([("b", w1, True, ("sc", bt)), ("b", wa, True, ("sc", bt)), ("b", wb, True, ("sc", bt))])
+    return out
+
+
 def main():
     merge_tie()
     t0 = time.time()
@@ -414,6 +460,14 @@ def main():
                 ck.sample({"layout_decl": G.to_str(t)})
         for i, b in enumerate(batches):
             layout_process(b, f"seed={ck.seed} batch={i}")
+    if not ck.replay and only != "pass":
+        bd = boundary_decls()
+        before = lay_stats["typedefs"]
+        for i in range(0, len(bd), 150):
+            layout_process(bd[i:i + 150], f"boundary {i}")
+        lay_stats["boundary"] = {"declarations": len(bd), "new_typedefs": lay_stats["typedefs"] - before,
+                                 "rule": "ordinary member (7 sizes) x bit-field declared type (6) x width with member bits + width = unit-1/0/+1 "
+                                         "(alone, behind a char, before a char); runs of 2-3 same-size bit-fields ending at unit-1/0/+1"}
     if not ck.replay and only != "pass" and not QUICK:
         decls, nmenu = small_scope_decls()
         before = lay_stats["typedefs"]
